@@ -3,10 +3,10 @@ sa/rules/exhaust.py: a family that grows is a new violation).  (query, family, t
 GROUP_CEILINGS = {
     ("exhaustive", "bounded-branch-in-open-repetition", "thorough"): 4,
     ("exhaustive", "bounded-branch-in-open-repetition", "quick"): 4,
-    ("exhaustive", "optional-repetition/matches-the-empty-path", "quick"): 33,
-    ("exhaustive", "optional-repetition/matched-path-not-empty", "quick"): 11,
-    ("exhaustive", "optional-repetition/matches-the-empty-path", "thorough"): 44,
-    ("exhaustive", "optional-repetition/matched-path-not-empty", "thorough"): 26,
+    ("exhaustive", "optional-repetition/matches-the-empty-path", "quick"): 41,
+    ("exhaustive", "optional-repetition/matched-path-not-empty", "quick"): 13,
+    ("exhaustive", "optional-repetition/matches-the-empty-path", "thorough"): 52,
+    ("exhaustive", "optional-repetition/matched-path-not-empty", "thorough"): 28,
     ("depth", "lower-bound-above-actual/tree-wildcard-inside-a-branch", "quick"): 73,
     ("depth", "lower-bound-above-actual/tree-wildcard-inside-a-branch", "thorough"): 306,
     ("partition", "rooted-through-a-branch/law+postfix-rooted+not-idempotent", "quick"): 90,
